@@ -64,6 +64,11 @@ inline void with_stream(const P& p, const ExecOp& op, const Buf& buf, Outcome& o
         ctpg::utils::no_stream ns;
         call_api(p, op, buf, ns, out);
     }
+    else if (op.stream == STR_SIM && op.shared_os)
+    {
+        call_api(p, op, buf, *op.shared_os, out);
+        out.stream_bad = !op.shared_os->good();
+    }
     else if (op.stream == STR_SIM)
     {
         SimStreamBuf sb;
@@ -162,6 +167,12 @@ void exec_parser(const ExecOp& op, Outcome& out)
                 out.oss_text = os.str();
                 out.digest = fnv(out.oss_text.data(), out.oss_text.size());
             }
+            else if (op.shared_os)
+            {
+                p->write_diag_str(*op.shared_os);
+                simrt::end_op();
+                out.stream_bad = !op.shared_os->good();
+            }
             else
             {
                 SimStreamBuf sb;
@@ -190,6 +201,7 @@ inline void match_with_stream(const M& m, const ExecOp& op, const Buf& buf, Outc
     ctpg::match_options mo; mo.set_verbose(op.verbose);
     bool r;
     if (op.stream == STR_NONE) { ctpg::utils::no_stream ns; r = m.match(mo, buf, ns); }
+    else if (op.stream == STR_SIM && op.shared_os) { r = m.match(mo, buf, *op.shared_os); out.stream_bad = !op.shared_os->good(); }
     else if (op.stream == STR_SIM) { SimStreamBuf sb; std::ostream os(&sb); r = m.match(mo, buf, os); out.stream_bad = !os.good(); }
     else { std::ostringstream os; r = m.match(mo, buf, static_cast<std::ostream&>(os)); out.oss_text = os.str(); }
     simrt::end_op();
